@@ -11,7 +11,7 @@ CONSTANTS
   ScaleKs <- K_one
   Kinds = {"list"}
   PerturbNames <- N_base
-  RegPool <- Regs108
+  RegPool <- Regs108s
   Keys <- Keys_all
   HelperNames = {"linspace"}
   Plan <- Plan_derived
